@@ -103,8 +103,8 @@ def prologue (n : Nat) (op : Op) (a b : Nat) : Prologue Nat :=
         | .inf => { throws := some .posit_division_result_is_infinite, qEarly := some (nar n) }
         | .val => {}
   | .conv =>
-    -- #if: `if (iszero()) return 0; if (isnar()) throw posit_nar{}; return int(to_double());`
-    -- #else: `return int(to_double());`   where to_double() starts with `if (iszero()) return 0.0;`
+    -- #if: `if (iszero()) return 0; if (isnar()) throw posit_nar{}; return to_integer<int>();`
+    -- #else: `return isnar() ? int(to_double()) : to_integer<int>();`   where to_integer() starts with `if (iszero()) return 0;`
     if isZero n a then { tEarly := some 0, qEarly := some 0 }
     else if isNaR n a then { throws := some .posit_nar }
     else {}
@@ -165,18 +165,26 @@ def prologue (c : Cfg) (op : Op) (a b : Nat) : Prologue Nat :=
     -- so the NaN tests of `+=` see the same answers.
     -- #if: `if (isnan(SIGNALLING) || rhs.isnan(SIGNALLING)) throw cfloat_operand_is_nan{}`
     -- #else: signalling → setnan(SIGNALLING); return.
-    -- after #endif (both builds, since fix 896b71f): quiet → setnan(QUIET); return.
+    -- after #endif (both builds, since fix d2b4539): quiet → setnan(QUIET); return.
     if anyS then { throws := some .cfloat_operand_is_nan, qEarly := some (nanEnc c .signalling) }
     else if anyQ then { tEarly := some (nanEnc c .quiet), qEarly := some (nanEnc c .quiet) }
     else {}
   | .div =>
     -- #if: `if (rhs.iszero()) throw cfloat_divide_by_zero(); if (rhs.isnan()) throw cfloat_divide_by_nan();
-    --       if (isnan()) throw cfloat_operand_is_nan();`
+    --       if (isnan(SIGNALLING)) throw cfloat_operand_is_nan();
+    --       if (isnan(QUIET)) { setnan(QUIET); return *this; }`   (since the repair "operator/= in the throwing build
+    --       must propagate a quiet NaN numerator instead of throwing")
     -- #else: signalling → sNaN; quiet → qNaN; rhs.iszero → (iszero ? qNaN : inf(sign != rhs.sign))
     let thr : Option ExcKind :=
       if isZero c b then some .cfloat_divide_by_zero
       else if isNaN c .either b then some .cfloat_divide_by_nan
-      else if isNaN c .either a then some .cfloat_operand_is_nan
+      else if isNaN c .signalling a then some .cfloat_operand_is_nan
+      else none
+    let tE : Option Nat :=
+      if isZero c b then none
+      else if isNaN c .either b then none
+      else if isNaN c .signalling a then none
+      else if isNaN c .quiet a then some (nanEnc c .quiet)
       else none
     let qE : Option Nat :=
       if anyS then some (nanEnc c .signalling)
@@ -184,7 +192,7 @@ def prologue (c : Cfg) (op : Op) (a b : Nat) : Prologue Nat :=
       else if isZero c b then
         (if isZero c a then some (nanEnc c .quiet) else some (infEnc c (sign c a != sign c b)))
       else none
-    { throws := thr, qEarly := qE }
+    { throws := thr, tEarly := tE, qEarly := qE }
   | _ => {}
 
 end CFloat
@@ -218,14 +226,15 @@ def isZero (n a : Nat) : Bool := a == 2 ^ (n - 2)
 def isNaN (n a : Nat) : Bool := a == 2 ^ (n - 1) + 2 ^ (n - 2)
 def nan (n : Nat) : Nat := 2 ^ (n - 1) + 2 ^ (n - 2)
 
-/-- `operator/=`: `if (isnan()) return *this; if (rhs.isnan()) { setnan(); return }` (both builds), then
-    `if (rhs.iszero())` #if throw lns_divide_by_zero #else setnan. -/
+/-- `operator/=` (code after the fix "lns operator/= must test for a zero divisor before the NaN operands"):
+    `if (rhs.iszero())` #if throw lns_divide_by_zero #else setnan; then, in both builds,
+    `if (isnan()) return *this; if (rhs.isnan()) { setnan(); return }`. -/
 def prologue (n : Nat) (op : Op) (a b : Nat) : Prologue Nat :=
   match op with
   | .div =>
-    if isNaN n a then { tEarly := some a, qEarly := some a }
+    if isZero n b then { throws := some .lns_divide_by_zero, qEarly := some (nan n) }
+    else if isNaN n a then { tEarly := some a, qEarly := some a }
     else if isNaN n b then { tEarly := some (nan n), qEarly := some (nan n) }
-    else if isZero n b then { throws := some .lns_divide_by_zero, qEarly := some (nan n) }
     else {}
   | _ => {}
 end Lns
@@ -244,7 +253,7 @@ def edecPrologue (op : Op) (_a b : Int) : Prologue String :=
   | _ => {}
 /-- erational `operator/=` and `normalize()` (called by every operator; the denominator can only be zero after a division
     by zero): #if `if (zero) throw erational_divide_by_zero` #else `if (zero) std::cerr << "erational_divide_by_zero\n"`
-    (code after fix 08c03f8, which repaired D15: the message used to be unconditional). -/
+    (code after fix 0df1c14, which repaired D15: the message used to be unconditional). -/
 def eratPrologue (op : Op) (_a b : Int) : Prologue String :=
   match op with
   | .div => if b == 0 then { throws := some .erational_divide_by_zero, qStderr := true } else {}
